@@ -1,7 +1,7 @@
 """C02 - addition, subtraction and casts are allowed exactly between commensurable units."""
 import json, time
 from fractions import Fraction as F
-from core import build, unitgen as G, units_ref as R
+from core import build, unitgen as G, units_ref as R, boundary, exact
 from core.driver import Driver, DriverDied, DriverTimeout
 from core.run import Acc, finish, rng_for, run_shards, NCPU
 
@@ -17,6 +17,12 @@ RULE = ("pairs of unit expressions (U1,U2) over the whole non-offset vocabulary 
 def mag(rng):
     """A positive magnitude as (text, Fraction): integer, decimal or exponent notation."""
     r = rng.random()
+    if rng.random() < 0.05:
+        # machine-word / limb boundaries and 1 +- 10^-k (core/boundary.py)
+        t = boundary.literal(rng, allow_neg=False)
+        v = exact.lit_from_text(t)
+        if v > 0:
+            return t, v
     if r < 0.4:
         v = F(rng.randint(1, 50))
         return str(v.numerator), v
